@@ -3,33 +3,15 @@ package main
 import (
 	"fmt"
 
-	"github.com/gopacket/gopacket"
-	"github.com/gopacket/gopacket/layers"
-	"verif/harness/vh"
+	"verif/harness/corpus"
 )
 
 func main() {
-	for _, lt := range []gopacket.LayerType{layers.LayerTypeTCP, layers.LayerTypeUDP, layers.LayerTypeSCTP, layers.LayerTypeUDPLite, layers.LayerTypeRUDP} {
-		p := gopacket.NewPacket([]byte{1, 2, 3}, lt, gopacket.Default)
-		tl := p.TransportLayer()
-		fmt.Println(lt, "layers", len(p.Layers()), "transport nil:", tl == nil, "err:", p.ErrorLayer() != nil)
-		if tl != nil {
-			msg, site, pn := vh.Guard(func() { _ = tl.TransportFlow().String() })
-			fmt.Println("  flow.String panic:", pn, msg, site)
-			msg, site, pn = vh.Guard(func() { a, b := tl.TransportFlow().Endpoints(); _ = a.String(); _ = b.String(); _ = tl.TransportFlow().FastHash() })
-			fmt.Println("  endpoints panic:", pn, msg)
-		}
+	fx := corpus.Load()
+	cs := corpus.HeaderEndCases(fx)
+	by := map[string]int{}
+	for _, c := range cs {
+		by[c.First.String()]++
 	}
-	// network layers
-	for _, lt := range []gopacket.LayerType{layers.LayerTypeIPv4, layers.LayerTypeIPv6, layers.LayerTypeEthernet, layers.LayerTypeLinuxSLL} {
-		p := gopacket.NewPacket([]byte{1, 2, 3}, lt, gopacket.Default)
-		if nl := p.NetworkLayer(); nl != nil {
-			msg, _, pn := vh.Guard(func() { _ = nl.NetworkFlow().String() })
-			fmt.Println(lt, "netflow.String panic:", pn, msg)
-		}
-		if ll := p.LinkLayer(); ll != nil {
-			msg, _, pn := vh.Guard(func() { _ = ll.LinkFlow().String() })
-			fmt.Println(lt, "linkflow.String panic:", pn, msg)
-		}
-	}
+	fmt.Println(len(cs), by["Ethernet"], by["IPv4"], by["IPv6"], by["IPv6HopByHop"], by["IPv6Destination"], by["TCP"], by["UDP"])
 }
